@@ -67,6 +67,20 @@ def cer_form_rules(T, enc):
 
 
 def run_case(case):
+    pref = case.get('real_pref')
+    if pref is None:
+        return _run_case(case)
+    # the documented class-wide BER encoding preference for binary REALs; DER and CER have no such freedom
+    from pyasn1.type import univ as _univ
+    old = _univ.Real.binEncBase
+    _univ.Real.binEncBase = pref
+    try:
+        return _run_case(case)
+    finally:
+        _univ.Real.binEncBase = old
+
+
+def _run_case(case):
     T, v = case['T'], case['v']
     defMode, chunk = case['mode']
     fails = []
@@ -142,11 +156,13 @@ def features(T, v, mode):
 
 def run_shard(desc, seed, tier, col):
     from hypothesis import strategies as st
-    strat = st.tuples(gen.type_and_value(CFG), gen.ber_modes())
+    strat = st.tuples(gen.type_and_value(CFG), gen.ber_modes(), st.sampled_from([None, None, 8, 16]))
 
     def body(x):
-        (T, v), mode = x
+        (T, v), mode, pref = x
         case = {'T': T, 'v': v, 'mode': list(mode)}
+        if pref is not None and 'REAL' in ir.kinds_in(T):
+            case['real_pref'] = pref
         col.case({'T': T, 'v': v, 'm': list(mode)}, nontrivial(T, v), features(T, v, mode),
                  sample={'type': ir.show_type(T), 'value': absval.short(v, 200), 'ber_mode': list(mode),
                          'reference_der': x690.der(T, v).hex()[:120]})
